@@ -130,7 +130,11 @@ func hostileImport(id, tier string, seed int64, ev *Evidence) (violations []stri
 		go func(i int) {
 			defer wg.Done()
 			defer func() { <-sem }()
-			out[i] = res{streams[i], impfuzz.Run(streams[i], i%2 == 0)}
+			r := impfuzz.Run(streams[i], i%2 == 0)
+			if r.Msg == "" {
+				r = impfuzz.RunCompressed(streams[i], i%2 == 1)
+			}
+			out[i] = res{streams[i], r}
 		}(i)
 	}
 	wg.Wait()
@@ -183,7 +187,11 @@ func ReplayHostile(path string) (bool, int) {
 		return false, 0
 	}
 	for _, fast := range []bool{true, false} {
-		if r := impfuzz.Run(rf.Stream, fast); r.Msg != "" {
+		r := impfuzz.Run(rf.Stream, fast)
+		if r.Msg == "" {
+			r = impfuzz.RunCompressed(rf.Stream, fast)
+		}
+		if r.Msg != "" {
 			fmt.Println(rf.Stream.String())
 			fmt.Println(r.Msg)
 			fmt.Printf("VIOLATION property=%s replay=%s\n", rf.Property, path)
